@@ -32,6 +32,7 @@ func init() {
 	runners["StatsIn"] = runStatsIn
 	runners["Rtpfb"] = runRtpfb
 	runners["DumpReceiver"] = runDumpReceiver
+	runners["DumpReceiverRtcp"] = runDumpReceiverRtcp
 	runners["JBInterceptor"] = runJBInterceptor
 	runners["JBPush"] = runJBPush
 	runners["TwccSender"] = runTwccSender
@@ -206,11 +207,16 @@ func runStatsOut(c *c13Case, cl *caller, _ *[]cq.ImplFailure) runOut {
 }
 
 // readCall performs one Read into the caller's read buffer; upstream delivers packet i.
+// exact: the caller passes a buffer of exactly the packet's size (a slice of its reused buffer).
 func readCall(c *c13Case, cl *caller, rd interceptor.RTPReader, pending *[]byte, i int, twccExt bool, checkBuf bool, out *runOut) (int, []byte, error) {
 	h, p := newCaller(false).build(c.Pkts[i], twccExt)
 	raw := marshalPkt(h, p)
 	*pending = raw
 	b := cl.readBuf()
+	if !checkBuf {
+		// jitter-buffer interceptor: it allocates len(b) bytes and (until the fix for F28) parses all of them
+		b = b[:len(raw)]
+	}
 	out.ops = append(out.ops, readCallOp(c.Comp, raw))
 	n, _, err := rd.Read(b, interceptor.Attributes{})
 	if checkBuf && (n != len(raw) || !bytes.Equal(b[:len(raw)], raw)) {
@@ -517,6 +523,92 @@ func runTwccSender(c *c13Case, cl *caller, fails *[]cq.ImplFailure) runOut {
 	sort.Ints(seqs)
 	out.outs = append(out.outs, []int64{intern("T|" + fmt.Sprint(seqs))})
 	out.ops = append(out.ops, cq.C("EmitAll", c.Comp))
+	cl.final(0)
+	_ = ic.Close()
+	out.wrote = cl.wrote
+
+	return out
+}
+
+// ---- packetdump receiver, RTCP: packets parsed from the caller's read buffer go to the logger goroutine ----
+
+func rtcpOf(s spec) []byte {
+	data := make([]byte, 4*(1+s.Ext%4))
+	for i := range data {
+		data[i] = byte(int(s.Seq) + i*11 + 3)
+	}
+	var raw []byte
+	var err error
+	switch s.PayLen % 3 {
+	case 0:
+		raw, err = (&rtcp.ApplicationDefined{SSRC: mediaSSRC, Name: "c13x", Data: data}).Marshal()
+	case 1:
+		raw, err = (&rtcp.ReceiverReport{SSRC: mediaSSRC, Reports: []rtcp.ReceptionReport{{SSRC: 5, LastSequenceNumber: uint32(s.Seq)}}, ProfileExtensions: data}).Marshal()
+	default: // a packet type pion/rtcp does not know: kept as RawPacket
+		raw = append([]byte{0x80, 222, 0, byte(len(data) / 4)}, data...)
+	}
+	if err != nil {
+		panic(err)
+	}
+
+	return raw
+}
+
+func runDumpReceiverRtcp(c *c13Case, cl *caller, fails *[]cq.ImplFailure) runOut {
+	var out runOut
+	ls := &lineSink{}
+	gate := make(chan struct{}, 4)
+	format := func(pkts []rtcp.Packet, _ interceptor.Attributes) string {
+		if !noGate {
+			select {
+			case <-gate:
+			case <-time.After(500 * time.Millisecond):
+			}
+		}
+		s := ""
+		for _, p := range pkts {
+			raw, err := p.Marshal()
+			s += fmt.Sprintf("%T %+v %x %v\n", p, p, raw, err)
+		}
+
+		return s
+	}
+	f, err := packetdump.NewReceiverInterceptor(packetdump.RTCPWriter(ls), packetdump.RTCPFormatter(format))
+	if err != nil {
+		panic(err)
+	}
+	ic, err := f.NewInterceptor("")
+	if err != nil {
+		panic(err)
+	}
+	var pending []byte
+	rr := ic.BindRTCPReader(interceptor.RTCPReaderFunc(func(b []byte, a interceptor.Attributes) (int, interceptor.Attributes, error) {
+		return copy(b, pending), a, nil
+	}))
+	for i := range c.Pkts {
+		before := ls.n()
+		raw := rtcpOf(c.Pkts[i])
+		pending = raw
+		b := cl.readBuf()
+		out.ops = append(out.ops, readCallOp(c.Comp, raw))
+		n, _, _ := rr.Read(b, interceptor.Attributes{})
+		if n != len(raw) || !bytes.Equal(b[:len(raw)], raw) {
+			cl.wrote = append(cl.wrote, int64(i))
+		}
+		if !cl.reuse {
+			cl.held = append(cl.held, held{idx: i, h: &rtp.Header{}, p: b[:len(raw)], wp: raw})
+		}
+		out.ops = append(out.ops, cl.scribbleRead(len(raw))...)
+		gate <- struct{}{}
+		if !waitFor(ls.n, before+1, 2*time.Second) {
+			*fails = append(*fails, cq.ImplFailure{Kind: "no-dump", Detail: fmt.Sprintf("rtcp packet %d not dumped", i), Case: c})
+		}
+		ls.mu.Lock()
+		got := append([]int64{}, ls.lines[before:]...)
+		ls.mu.Unlock()
+		out.outs = append(out.outs, got)
+		out.ops = append(out.ops, cq.C("EmitAll", c.Comp), cq.C("Drop", c.Comp))
+	}
 	cl.final(0)
 	_ = ic.Close()
 	out.wrote = cl.wrote
